@@ -58,6 +58,8 @@ class ElabModel:
             s = target.slice
             if isinstance(s, ast.Constant) and isinstance(s.value, str):
                 return s.value
+            if isinstance(s, ast.Name) and s.id in self.aliases and s.id not in self.signals:
+                return unparse(self.expand(s))          # o_domain = self._o_domain; m.d[o_domain] += ...
             return unparse(s)
         return None
 
@@ -139,6 +141,18 @@ class ElabModel:
                         self.signals[unparse(t)] = s.value
                 continue
             if isinstance(s, ast.If):
+                # a name bound once in each branch is the conditional expression of the two values afterwards
+                both = []
+                if s.orelse:
+                    def _binds(block):
+                        out = {}
+                        for x in block:
+                            if isinstance(x, ast.Assign) and len(x.targets) == 1 and isinstance(x.targets[0], ast.Name):
+                                out[x.targets[0].id] = None if x.targets[0].id in out else x.value
+                        return out
+                    b1, b2 = _binds(s.body), _binds(s.orelse)
+                    both = [(k, b1[k], b2[k]) for k in b1 if k in b2 and b1[k] is not None and b2[k] is not None
+                            and not any(isinstance(n, ast.Call) for v in (b1[k], b2[k]) for n in ast.walk(v))]   # plain operand choices only
                 self._walk(s.body, guards, pyconds + [(s.test, True)])
                 # an early return in the body makes the rest conditional on the negation
                 if any(isinstance(x, ast.Return) for x in s.body):
@@ -148,6 +162,9 @@ class ElabModel:
                     pyconds = pyconds + [(s.test, False)]
                 else:
                     self._walk(s.orelse, guards, pyconds + [(s.test, False)])
+                for k, v1, v2 in both:
+                    if k not in self.signals:
+                        self.aliases[k] = ast.IfExp(test=s.test, body=v1, orelse=v2)
                 continue
             if isinstance(s, (ast.For, ast.While)):
                 self._walk(s.body, guards, pyconds)
